@@ -1,5 +1,5 @@
 """Specification growth beyond the listed properties (DESIGN §8 / §16.7): SYNC counter, TIME framing,
-active node search, store / restore, LSS identify services, load_configuration, CiA 402 homing / fault reset, EPF import.  Not registered in MANIFEST.json (there
+active node search, store / restore, LSS identify services, load_configuration, CiA 402 homing / fault reset, EPF import, the dictionary container.  Not registered in MANIFEST.json (there
 is no listed property to report against); run manually: /venv/bin/python -m checks.extras"""
 import random
 import sys
@@ -66,6 +66,19 @@ def main():
         print("EPF-BADROW", why, str(rows[i])[:400])
     print(f"epf import: {len(rows)} parameters, {len(badrows)} bad rows")
     bad += len(badrows)
+    # the dictionary as a container: design model (mirror maps under the pairing discipline, divergence
+    # without it), then operation sequences on the real ObjectDictionary
+    mc = tlc.run_tlc("MC_OdDict", "MC_OdDict.cfg", workers=4, timeout=600)
+    free = tlc.run_tlc("MC_OdDict", "MC_OdDict_free.cfg", workers=1, timeout=600)
+    print(f"MC_OdDict: ok={mc.ok} distinct={mc.distinct}; without the discipline: violated={free.violated} (expected Mirror)")
+    bad += 0 if mc.ok and free.violated == "Mirror" else 1
+    cases = [{"seed": rng.randrange(1 << 30), "n": 80, "disciplined": i % 3 == 0} for i in range(240)]
+    res = run_cases("harness.drv_oddict:run_case", cases, jobs=8, timeout=120)
+    val = tlc.validate_traces("Trace_OdDict", res, cfg="Trace.cfg", jobs=4)
+    for r in val.rejects[:10]:
+        print("ODDICT-REJECT", r.why, str(r.event)[:300], r.state[:300])
+    print(f"dictionary container: {val.traces} traces, {val.events} events, {len(val.rejects)} rejected")
+    bad += len(val.rejects)
     return 1 if bad else 0
 
 
